@@ -42,6 +42,14 @@ EXTRA = {
     'C18-remaining-double-subtracted': ['C01', 'C02'],
     'C04-fragments-cleared-on-control-fin': ['C01'],
     'C14-frames-materialised-before-dispatch': ['C04'],
+    'C01-from-options-client-server-swapped': ['C06'],
+    'C01-send-pong-narrowed-except-closing': ['C08', 'C14'],
+    'C02-read-until-length-check-before-search': ['C10'],
+    'C03-reset-compressor-uses-decompress-wbits': ['C06'],
+    'C04-empty-first-fragment-skips-streaming-utf8': ['C05'],
+    'C04-set-compression-when-offered-not-accepted': ['C06'],
+    'C07-ping-timeout-only-while-active': ['C15'],
+    'C07-sent-close-time-reset-on-every-close': ['C15', 'C08'],
 }
 
 
